@@ -47,6 +47,10 @@ def rule_transpose(ctx):
             return False
         if atom[0] == 'cmp' and atom[1] == '==' and 'len(' in s and atom[3] == const(0):
             return False
+        if atom[0] == 'call' and T.call_name(atom) == 'len' and atom[2] == (DIMS,):       # `if not len(dims):` - dimensions are given in this scenario
+            return True
+        if atom == DIMS:
+            return True
         return None
     ev = run(ctx, fi, oracle=oracle)
     n = 0
@@ -281,11 +285,15 @@ def rule_insert_remove(ctx):
         if not okv:
             ctx.violated('R2', fi, 'values = ' + T.show(vals)[:140], 'values must be repeated np.size(labels) times along the resolved position', node=p.node)
             continue
-        oka = axes[0] == 'setitem' and axes[2] == idx and axes[1][0] == 'comp' and axes[1][3][0][1] == ('attr', SELF, 'axes')
+        # a fresh list of the axes ([ax for ax in self.axes] and list(self.axes) are one term) with the repeated position replaced
+        oka = axes[0] == 'setitem' and axes[2] == idx and axes[1] in (('call', ('name', 'list'), (('attr', SELF, 'axes'),), ()),
+                                                                     ('call', ('attr', ('attr', SELF, 'axes'), 'copy'), (), ()))
         if oka:
-            new = axes[3]
-            isax = [pol for a, pol in p.guards if a[0] == 'call' and T.dotted(a[1]) == 'isinstance' and a[2] == (VALUES, ('name', 'Axis'))]
-            oka = (new == VALUES and isax == [True]) or (new == ('call', ('name', 'Axis'), (VALUES, name), ()) and isax == [False])
+            from ..rules import alternatives
+            for new, extra in alternatives(axes[3]):          # (an if statement and a conditional expression read the same)
+                isax = [pol for a, pol in tuple(p.guards) + tuple(extra) if a[0] == 'call' and T.dotted(a[1]) == 'isinstance' and a[2] == (VALUES, ('name', 'Axis'))]
+                if not ((new == VALUES and isax == [True]) or (new == ('call', ('name', 'Axis'), (VALUES, name), ()) and isax == [False])):
+                    oka = False
         if not oka:
             ctx.violated('R2', fi, 'axes = ' + T.show(axes)[:160], 'the axis at the same position must become the axis made of the given labels (same name)', node=p.node)
             continue
